@@ -111,7 +111,7 @@ def synthetic_inventory(rng: Rng) -> Tuple[bytes, List[str]]:
 # consumer
 
 def consume(inv_bytes: Optional[bytes], fault: Optional[Dict[str, Any]], refs: List[str], cache_state: str,
-            root: str, full_main: bool = False) -> Dict[str, Any]:
+            root: str, full_main: bool = False, consumer_root: Optional[str] = None) -> Dict[str, Any]:
     """Run the consumer pydoctor against the simulated network."""
     from pydoctor import driver
     from pydoctor.options import Options
@@ -133,10 +133,20 @@ def consume(inv_bytes: Optional[bytes], fault: Optional[Dict[str, Any]], refs: L
     src = os.path.join(root, 'bsrc')
     os.makedirs(src, exist_ok=True)
     doc = ' '.join(f'L{{{r}}}' for r in refs if _xref_safe(r))
-    with open(os.path.join(src, 'bmod.py'), 'w') as f:
-        f.write(f'"""Consumer module. {doc}"""\n\ndef user():\n    """Uses {doc}"""\n')
+    text = f'"""Consumer module. {doc}"""\n\ndef user():\n    """Uses {doc}"""\n'
+    if consumer_root:
+        # the consumer is a package that shares its top-level name with names of the inventory (a distribution split
+        # over several projects, a plug-in living in its host's package)
+        os.makedirs(os.path.join(src, consumer_root), exist_ok=True)
+        target = os.path.join(src, consumer_root)
+        with open(os.path.join(target, '__init__.py'), 'w') as f:
+            f.write(text)
+    else:
+        target = os.path.join(src, 'bmod.py')
+        with open(target, 'w') as f:
+            f.write(text)
     argv = ['--intersphinx', URL, '--intersphinx-cache-path', cache_dir, '--system-class', 'sim.simsystem.MainSimSystem',
-            '--html-output', os.path.join(root, 'bout'), '--project-name', 'B', os.path.join(src, 'bmod.py')]
+            '--html-output', os.path.join(root, 'bout'), '--project-name', 'B', target]
     if cache_state == 'disabled':
         argv = ['--disable-intersphinx-cache'] + argv
     buf = io.StringIO()
@@ -231,6 +241,23 @@ def judge_fault_run(orig_lines: List[str], sent: Optional[bytes], fault: Optiona
         if link != want:
             viols.append((f'usable-line-does-not-resolve,fault={tag}', f'getLink({name!r}) -> {link!r}, expected {want!r}; fault {fault}, damaged lines {sorted(damaged_lines)}'))
             break
+    # the same through the linker of the consumer (what docstring references, base classes and annotations use)
+    ctx = system.rootobjects[0] if system.rootobjects else None
+    if ctx is not None and not viols:
+        shared = int(any(n.split('.')[0] in system.root_names for n in last))
+        for name, uri in sorted(last.items()):
+            if name in damaged_names or name in system.allobjects or not _xref_safe(name):
+                continue
+            want = f'{BASE}/{net.expand_uri(name, uri)}'
+            try:
+                tag_ = ctx.docstring_linker.link_to(name, name)
+                href = getattr(tag_, 'attributes', {}).get('href')
+            except Exception as e:
+                href = f'<{type(e).__name__}: {e}>'
+            if href != want:
+                viols.append((f'usable-line-not-linked,fault={tag},shared_root={shared}',
+                              f'link_to({name!r}) from {ctx.fullName()!r} gives href {href!r}, expected {want!r} (getLink resolves it); fault {fault}'))
+                break
     return viols
 
 
@@ -291,10 +318,11 @@ def run_fault(base_lines: List[str], plan: Dict[str, Any], refs: List[str]) -> T
             sent = net.apply_payload_fault(inv, fault)
         if plan.get('unrouted'):
             sent = None
-        res = consume(sent, fault, refs, plan.get('cache', 'empty'), root, full_main=plan.get('full_main', False))
+        res = consume(sent, fault, refs, plan.get('cache', 'empty'), root, full_main=plan.get('full_main', False),
+                      consumer_root=plan.get('consumer_root'))
         if plan.get('second_run') and res['exc'] is None:
             # history: the same consumer again, now with whatever the first run left in the cache
-            res = consume(sent, plan.get('second_fault', fault), refs, 'keep', root)
+            res = consume(sent, plan.get('second_fault', fault), refs, 'keep', root, consumer_root=plan.get('consumer_root'))
             fault = plan.get('second_fault', fault)
         tag = (fault or {}).get('kind', 'none') if fault else ('line' if plan.get('line_plan') else 'none')
         if plan.get('cache') == 'corrupt':
@@ -422,6 +450,10 @@ def run_task(task: Dict[str, Any]) -> Dict[str, Any]:
             p['second_fault'] = net.plan_transfer_fault(r.sub('p2'), inv0, r.sub('k2').choice(net.TRANSFER_KINDS))
         if r.sub('main').chance(0.1):
             p['full_main'] = True
+        if r.sub('croot?').chance(0.35):
+            heads = sorted({x.split('.')[0] for x in refs if '.' in x and x.split('.')[0].isidentifier()})
+            if heads:
+                p['consumer_root'] = r.sub('croot').choice(heads)
         plans.append(p)
     plans.append({'unrouted': True, 'transfer': {'kind': 'net.http_error', 'status': 404}})
     if task.get('enumerate') and len(inv0) <= 2048:
